@@ -565,6 +565,9 @@ type c09ClientCase struct {
 	// reply to the exchange (a server may: 421 / 535 and goodbye). The result
 	// of Auth is still that reply.
 	HangUp bool `json:"hang_up,omitempty"`
+	// Frag > 0: the server's replies reach the client in segments of at most
+	// Frag octets (a network may deliver a reply octet by octet)
+	Frag int `json:"frag,omitempty"`
 }
 
 type scriptedSASLClient struct {
@@ -606,7 +609,7 @@ func (s *scriptedSASLClient) Next(challenge []byte) ([]byte, error) {
 
 func c09ClientRun(c c09ClientCase) Verdict {
 	script := harness.Script{AuthSession: true, Mechs: []string{"XTEST"}, SASL: []harness.SASLScript{c.Server}}
-	r := harness.NewRig(harness.Config{AllowInsecureAuth: true}, script)
+	r := harness.NewRig(harness.Config{AllowInsecureAuth: true, FragmentReplies: c.Frag}, script)
 	mech := &scriptedSASLClient{c: c}
 	var authErr, noopErr error
 	ok := withClient(r, false, func(cl *smtp.Client, w *harness.Wire) {
@@ -849,6 +852,7 @@ func (p *c09StrictPeer) serve(conn net.Conn) {
 func c09StrictRun(c c09ClientCase, wantServer [][]byte, firstNil bool, outcome string) *Verdict {
 	hub := harness.NewHub()
 	clEnd, svEnd := harness.Pair(hub)
+	svEnd.SetFragment(c.Frag)
 	peer := &c09StrictPeer{script: c.Server, hangUp: c.HangUp, done: make(chan struct{})}
 	go peer.serve(svEnd)
 	cl := smtp.NewClient(clEnd)
@@ -938,6 +942,7 @@ func c09GenClient(t *rapid.T) c09ClientCase {
 	}
 	c.StartErr = rapid.IntRange(0, 15).Draw(t, "starterr") == 0
 	c.HangUp = rapid.IntRange(0, 3).Draw(t, "hang_up") == 0
+	c.Frag = rapid.SampledFrom([]int{0, 0, 1, 3}).Draw(t, "frag")
 	return c
 }
 
